@@ -74,10 +74,11 @@ type Policy struct {
 // Trace is the explicit decision record of one run: enough to replay it
 // without any PRNG.
 type Trace struct {
-	Segs  [][2]int64 `json:"segs"`  // (task id, steps): run task for that many steps
-	Pool  []int32    `json:"pool"`  // per Pool.Get: index into the pool's item list, -1 = miss
-	Clock []int64    `json:"clock"` // per clock read: forward jump in ns
-	Rand  []uint64   `json:"rand"`  // per rand draw
+	Segs  [][2]int64 `json:"segs"`          // (task id, steps): run task for that many steps
+	Pool  []int32    `json:"pool"`          // per Pool.Get: index into the pool's item list, -1 = miss
+	Clock []int64    `json:"clock"`         // per clock read: forward jump in ns
+	Rand  []uint64   `json:"rand"`          // per rand draw
+	Mem   int        `json:"mem,omitempty"` // process pressure level of this run (0..3), see ReadMemStats
 }
 
 // RunSpec is one simulated run.
@@ -103,6 +104,7 @@ type Faults struct {
 	TimerFire   int64 `json:"timer_fire"`
 	GC          int64 `json:"gc"`
 	Finalizer   int64 `json:"finalizer_run"`
+	MemPressure int64 `json:"mem_pressure"` // process metrics read by the library while the run's pressure level was > 0
 }
 
 func (f *Faults) Add(o *Faults) {
@@ -118,6 +120,7 @@ func (f *Faults) Add(o *Faults) {
 	f.TimerFire += o.TimerFire
 	f.GC += o.GC
 	f.Finalizer += o.Finalizer
+	f.MemPressure += o.MemPressure
 }
 
 // RunResult is what one run produced.
@@ -127,11 +130,13 @@ type RunResult struct {
 	Steps      int64
 	Switches   int64
 	Overlap    bool // two calls of different tasks were in flight at once
+	Parked     bool // policy "overlap": task 1 reached its Depth-th request before it finished
 	Trace      Trace
 	SchedHash  uint64
 	Faults     Faults
 	Deadlock   bool
 	NoReturn   bool
+	Starved    bool // explicit schedule only: the bound was hit while a runnable caller got no turns
 	Detail     string
 	RaceDelta  int
 	Spawned    int
@@ -171,25 +176,27 @@ type Sim struct {
 	timerID int64
 
 	// per run
-	spec     *RunSpec
-	rng      *RNG
-	tasks    []*Task
-	live     []*Task // unfinished tasks, ordered by id
-	raws     [][]string
-	res      *RunResult
-	base     int64 // global steps at run start
-	fair     bool
-	explicit bool
-	segIdx   int
-	segLeft  int64
-	poolIdx  int
-	clockIdx int
-	randIdx  int
-	rrNext   int
-	cps      []int64 // pct change points (run-relative steps)
-	cpIdx    int
-	seqOrder []int
-	last     *Task
+	spec      *RunSpec
+	memLevel  int  // process pressure level of the current run
+	MemFaults bool // seeded pressure levels (off in the equivalence pass: level 0 is what the shipped code sees there)
+	rng       *RNG
+	tasks     []*Task
+	live      []*Task // unfinished tasks, ordered by id
+	raws      [][]string
+	res       *RunResult
+	base      int64 // global steps at run start
+	fair      bool
+	explicit  bool
+	segIdx    int
+	segLeft   int64
+	poolIdx   int
+	clockIdx  int
+	randIdx   int
+	rrNext    int
+	cps       []int64 // pct change points (run-relative steps)
+	cpIdx     int
+	seqOrder  []int
+	last      *Task
 }
 
 func NewSim(exec func(api uint8, input string) (string, string)) *Sim {
@@ -274,6 +281,18 @@ func (s *Sim) Run(spec *RunSpec) *RunResult {
 	s.last = nil
 	s.cps, s.cpIdx = nil, 0
 	races0 := RaceErrors()
+	s.memLevel = 0
+	if s.explicit {
+		if spec.Trace != nil {
+			s.memLevel = spec.Trace.Mem & 3
+		}
+	} else if s.MemFaults {
+		// three runs in ten see a host under memory / goroutine pressure
+		if r := Mix(spec.Seed, 0x3e3, 7) % 10; r >= 7 {
+			s.memLevel = int(r - 6)
+		}
+	}
+	s.res.Trace.Mem = s.memLevel
 
 	for i := range spec.Tasks {
 		calls := spec.Tasks[i]
@@ -335,6 +354,13 @@ func (s *Sim) Run(spec *RunSpec) *RunResult {
 	for {
 		if s.runSteps() > bound {
 			if s.unfinishedCallers() == 0 {
+				break
+			}
+			if s.explicit && s.starvedCaller(bound) {
+				// an explicit schedule (a minimisation candidate, an edited replay) that
+				// never lets a runnable caller run says nothing about the library
+				s.res.Starved = true
+				s.res.Detail = s.describe("explicit schedule starves a runnable caller")
 				break
 			}
 			s.res.NoReturn = true
@@ -410,7 +436,7 @@ func (s *Sim) Run(spec *RunSpec) *RunResult {
 		}
 	}
 	// values already returned to callers must not change afterwards
-	if !s.res.Deadlock && !s.res.NoReturn {
+	if !s.res.Deadlock && !s.res.NoReturn && !s.res.Starved {
 		for i, rs := range s.raws {
 			for j, raw := range rs {
 				out := s.res.Results[i][j]
@@ -443,6 +469,17 @@ func (s *Sim) unfinishedCallers() int {
 }
 
 func (s *Sim) unfinished() int { return len(s.live) }
+
+// starvedCaller: an unfinished caller is runnable and has itself taken less
+// than a quarter of the step bound.
+func (s *Sim) starvedCaller(bound int64) bool {
+	for _, t := range s.live {
+		if t.ID < len(s.spec.Tasks) && s.runnable(t) && t.steps < bound/4 {
+			return true
+		}
+	}
+	return false
+}
 
 func (s *Sim) describe(what string) string {
 	d := what + ":"
@@ -540,6 +577,9 @@ func (s *Sim) recordSeg(id int, ran int64) {
 
 func (s *Sim) handle(req request) {
 	t := req.t
+	if req.kind != ReqYield && req.kind != ReqDone {
+		t.reqs++
+	}
 	switch req.kind {
 	case ReqYield, ReqSync:
 		// still runnable
@@ -562,6 +602,13 @@ func (s *Sim) handle(req request) {
 		t.pend.val = s.poolGet(req.addr, t.ID)
 	case ReqClock:
 		t.pend.n = s.clockRead()
+	case ReqGC:
+		s.libGC()
+	case ReqMemInfo:
+		if s.memLevel > 0 {
+			s.res.Faults.MemPressure++
+		}
+		t.pend.n = int64(s.memLevel)<<48 | int64(procGCs&0xffff)<<32 | int64(len(s.live))
 	case ReqSleep:
 		if req.n > 0 {
 			t.state = stSleeping
@@ -588,6 +635,9 @@ func (s *Sim) handle(req request) {
 		t.state = stChanWait
 	case ReqChanMake:
 		delete(s.chans, req.addr)
+	case ReqChanAdopt:
+		cs := s.chanOf(req.addr, int(req.n))
+		cs.buf = append(cs.buf, req.val.([]any)...)
 	case ReqTimerNew:
 		ts := req.val.(*TimerSpec)
 		s.addTimer(ts, req.n)
@@ -785,6 +835,30 @@ func (s *Sim) pick() (*Task, int64) {
 		return t, s.geometric(p.P)
 	case "rr":
 		return s.pickRR(run, p.Quantum)
+	case "overlap":
+		// task 1 is parked right after its Depth-th synchronisation request, with
+		// its call in flight; task 0 then runs its calls; then task 1 goes on
+		if len(s.tasks) >= 2 {
+			a, b := s.tasks[0], s.tasks[1]
+			if b.reqs < int64(p.Depth) && s.runnable(b) {
+				return b, inf
+			}
+			if b.reqs >= int64(p.Depth) && b.state != stDone {
+				s.res.Parked = true
+			}
+			if s.runnable(a) {
+				return a, inf
+			}
+			if a.state != stDone && s.last != nil && s.last != b && s.runnable(s.last) {
+				return s.last, inf // a library goroutine task 0 waits for
+			}
+			for _, t := range run {
+				if a.state != stDone && t != b {
+					return t, inf
+				}
+			}
+		}
+		return run[0], inf
 	case "sync":
 		if s.last != nil && s.runnable(s.last) && s.rng.Float() >= p.P {
 			return s.last, inf
@@ -1299,6 +1373,16 @@ func (s *Sim) chanClose(addr uintptr) int64 {
 func (s *Sim) forceGC() {
 	s.res.Faults.GC++
 	s.res.Trace.Segs = append(s.res.Trace.Segs, [2]int64{-2, 1})
+	s.libGC()
+}
+
+// procGCs counts the collections of this process (reported as MemStats.NumGC).
+var procGCs int64
+
+// libGC collects now; not recorded in the trace when the library itself asked
+// for it (the request recurs at the same step in a replay).
+func (s *Sim) libGC() {
+	procGCs++
 	GCFunc()
 	if FinalizersSeen() {
 		// finalizers the collection made due run as tasks of this run
